@@ -2,7 +2,10 @@
 
 package encoding
 
-import "io"
+import (
+	"bytes"
+	"io"
+)
 
 // Contracts for the gcv verifier (/verif). This file is compiled only with the build tag
 // `verif`; it contains structured comments (//@ ...) and ghost (specification-only)
@@ -44,6 +47,29 @@ func specNatLen(x uint64) int {
 func specBE2(b []byte, o int) uint64 { return uint64(b[o])*256 + uint64(b[o+1]) }
 func specBE4(b []byte, o int) uint64 { return specBE2(b, o)*65536 + specBE2(b, o+2) }
 func specBE8(b []byte, o int) uint64 { return specBE4(b, o)*4294967296 + specBE4(b, o+4) }
+
+// specBE: big-endian value of the k bytes (0 <= k <= 8) of b starting at o.
+func specBE(b []byte, o int, k int) uint64 {
+	switch k {
+	case 0:
+		return 0
+	case 1:
+		return uint64(b[o])
+	case 2:
+		return specBE2(b, o)
+	case 3:
+		return specBE2(b, o)*256 + uint64(b[o+2])
+	case 4:
+		return specBE4(b, o)
+	case 5:
+		return specBE4(b, o)*256 + uint64(b[o+4])
+	case 6:
+		return specBE4(b, o)*65536 + specBE2(b, o+4)
+	case 7:
+		return (specBE4(b, o)*65536+specBE2(b, o+4))*256 + uint64(b[o+6])
+	}
+	return specBE8(b, o)
+}
 
 // specTLSize / specTLVal decode the variable-length number that starts at b[o].
 func specTLSize(b []byte, o int) int {
@@ -155,6 +181,11 @@ func forallIn(lo, hi int, f func(int) bool) bool {
 
 func implies(a, b bool) bool { return !a || b }
 
+// bytesAt: buf[o : o+len(val)] equals val.
+func bytesAt(buf []byte, o int, val []byte) bool {
+	return 0 <= o && o+len(val) <= len(buf) && bytes.Equal(buf[o:o+len(val)], val)
+}
+
 // ---------------------------------------------------------------------------------------
 // readers.go — representation invariants and the abstract view "position / length"
 // ---------------------------------------------------------------------------------------
@@ -240,8 +271,8 @@ func rdLen(r io.ByteReader) int {
 //@   modifies r.pos
 //@   ensures wfBR(r)
 //@   ensures result1 == nil ==> len(result0) == l && r.pos == old(r.pos)+l
-//@   ensures result1 == nil ==> forallIn(0, l, func(i int) bool { return result0[i] == r.buf[old(r.pos)+i] })
-//@   ensures result1 != nil ==> r.pos == old(r.pos) && (l < 0 || l > len(r.buf)-old(r.pos))
+//@   ensures result1 == nil ==> sameSlice(result0, r.buf[old(r.pos):old(r.pos)+l])
+//@   ensures result1 != nil ==> r.pos == old(r.pos) && (l < 0 || l > len(r.buf)-old(r.pos)) && result1 == io.ErrUnexpectedEOF
 
 //@ func (*BufferReader).Pos
 //@   requires wfBR(r)
@@ -339,7 +370,7 @@ func specCompAt(buf []byte, o int, c Component) bool {
 	s2 := specTLLen(uint64(len(c.Val)))
 	return specTLSize(buf, o) == s1 && specTLVal(buf, o) == uint64(c.Typ) &&
 		specTLSize(buf, o+s1) == s2 && specTLVal(buf, o+s1) == uint64(len(c.Val)) &&
-		forallIn(0, len(c.Val), func(i int) bool { return buf[o+s1+s2+i] == c.Val[i] })
+		bytesAt(buf, o+s1+s2, c.Val)
 }
 
 //@ func (Component).EncodingLength
@@ -374,3 +405,174 @@ func lemmaComponentRoundTrip(c Component) Component {
 	r, _ := ParseComponent(b)
 	return r
 }
+
+// specNameLen: total encoded size of the first k components of n (without the outer Name TL).
+func specNameLen(n Name, k int) int {
+	if k <= 0 {
+		return 0
+	}
+	return specNameLen(n, k-1) + specCompLen(n[k-1])
+}
+
+// A-MEM (DESIGN.md section 6): the encodings reachable from one value total less than 2^62 bytes, so
+// prefix sums of component sizes are non-negative, monotone and do not wrap. Assumed, not proved.
+//
+//@ func lemmaNameLenMono
+//@   trusted
+//@   requires 0 <= j && j <= i && i <= len(n)
+//@   ensures 0 <= specNameLen(n, j) && specNameLen(n, j) <= specNameLen(n, i) && specNameLen(n, i) <= 281474976710656
+func lemmaNameLenMono(n Name, j, i int) {}
+
+//@ func (Name).EncodingLength
+//@   ensures result == specNameLen(n, len(n))
+//@   loop 1 invariant ret == specNameLen(n, rangeindex+1)
+
+//@ func (Name).EncodeInto
+//@   uses lemmaNameLenMono
+//@   requires len(buf) >= specNameLen(n, len(n))
+//@   requires forallIn(0, len(n), func(i int) bool { return sliceArr(n[i].Val) != sliceArr(buf) })
+//@   modifies buf[*]
+//@   ensures result == specNameLen(n, len(n))
+//@   ensures forallIn(0, len(n), func(i int) bool { return specCompAt(buf, specNameLen(n, i), n[i]) })
+//@   ensures unchangedExcept(buf, 0, result)
+//@   loop 1 invariant pos == specNameLen(n, rangeindex+1)
+//@   loop 1 invariant forallIn(0, rangeindex+1, func(j int) bool { return 0 <= specNameLen(n, j) && specNameLen(n, j)+specCompLen(n[j]) <= pos })
+//@   loop 1 invariant forallIn(0, rangeindex+1, func(j int) bool { return specCompAt(buf, specNameLen(n, j), n[j]) })
+//@   loop 1 invariant unchangedExcept(buf, 0, pos)
+
+//@ func (Name).Bytes
+//@   uses lemmaNameLenMono
+//@   ensures fresh(result) && specTLVal(result, 0) == uint64(TypeName) && specTLSize(result, 0) == 1
+//@   ensures specTLVal(result, 1) == uint64(specNameLen(n, len(n))) && specTLSize(result, 1) == specTLLen(uint64(specNameLen(n, len(n))))
+//@   ensures len(result) == 1+specTLSize(result, 1)+specNameLen(n, len(n))
+//@   ensures forallIn(0, len(n), func(i int) bool { return specCompAt(result, 1+specTLSize(result, 1)+specNameLen(n, i), n[i]) })
+
+// ---------------------------------------------------------------------------------------
+// decoders reading through a reader
+// ---------------------------------------------------------------------------------------
+
+//@ func ReadTLNum
+//@   dyn r in {*BufferReader, *WireReader}
+//@   requires rdWf(r)
+//@   modifies r.(*BufferReader).pos, r.(*WireReader).pos, r.(*WireReader).seg
+//@   ensures rdWf(r) && rdLen(r) == old(rdLen(r))
+//@   ensures typeIs(r, "*BufferReader") && err == nil ==> old(rdPos(r)) < rdLen(r) && rdPos(r) == old(rdPos(r))+specTLSize(r.(*BufferReader).buf, old(rdPos(r))) && uint64(val) == specTLVal(r.(*BufferReader).buf, old(rdPos(r)))
+//@   ensures typeIs(r, "*BufferReader") && err != nil ==> old(rdPos(r)) == rdLen(r) || old(rdPos(r))+specTLSize(r.(*BufferReader).buf, old(rdPos(r))) > rdLen(r)
+//@   ensures typeIs(r, "*BufferReader") && err == io.EOF ==> old(rdPos(r)) == rdLen(r)
+//@   ensures typeIs(r, "*BufferReader") ==> rdPos(r) >= old(rdPos(r))
+//@   loop 1 invariant 0 <= i && i <= l && l <= 8 && err == nil && rdWf(r) && rdLen(r) == old(rdLen(r))
+//@   loop 1 invariant typeIs(r, "*BufferReader") ==> rdPos(r) == old(rdPos(r))+1+i && uint64(val) == specBE(r.(*BufferReader).buf, old(rdPos(r))+1, i)
+
+// specCompDecodedAt: c is what a decoder must return for the TLV that starts at buf[o]
+// (sizes of T and L as found in the buffer: decoders also accept non-shortest forms).
+func specCompDecodedAt(buf []byte, o int, c Component) bool {
+	s1 := specTLSize(buf, o)
+	s2 := specTLSize(buf, o+s1)
+	return specTLVal(buf, o) == uint64(c.Typ) && specTLVal(buf, o+s1) == uint64(len(c.Val)) &&
+		bytesAt(buf, o+s1+s2, c.Val)
+}
+
+// specCompFits: a complete TLV (header and value) starts at buf[o] and ends within buf.
+func specCompFits(buf []byte, o int) bool {
+	if !(0 <= o && o < len(buf)) {
+		return false
+	}
+	s1 := specTLSize(buf, o)
+	if !(o+s1 < len(buf)) {
+		return false
+	}
+	s2 := specTLSize(buf, o+s1)
+	return o+s1+s2 <= len(buf) && specTLVal(buf, o+s1) <= uint64(len(buf)-o-s1-s2)
+}
+
+//@ func ReadComponent
+//@   dyn r in {*BufferReader, *WireReader}
+//@   requires rdWf(r)
+//@   modifies r.(*BufferReader).pos, r.(*WireReader).pos, r.(*WireReader).seg
+//@   ensures rdWf(r) && rdLen(r) == old(rdLen(r))
+//@   ensures typeIs(r, "*BufferReader") && result1 == nil ==> specCompDecodedAt(r.(*BufferReader).buf, old(rdPos(r)), result0)
+//@   ensures typeIs(r, "*BufferReader") && result1 == nil ==> rdPos(r) == old(rdPos(r))+specTLSize(r.(*BufferReader).buf, old(rdPos(r)))+specTLSize(r.(*BufferReader).buf, old(rdPos(r))+specTLSize(r.(*BufferReader).buf, old(rdPos(r))))+len(result0.Val)
+//@   ensures typeIs(r, "*BufferReader") && result1 == nil ==> sameSlice(result0.Val, r.(*BufferReader).buf[rdPos(r)-len(result0.Val):rdPos(r)])
+//@   ensures typeIs(r, "*BufferReader") && result1 == io.EOF ==> old(rdPos(r)) == rdLen(r)
+//@   ensures typeIs(r, "*BufferReader") ==> (result1 == nil) == specCompFits(r.(*BufferReader).buf, old(rdPos(r)))
+//@   ensures typeIs(r, "*BufferReader") && result1 != nil ==> rdPos(r) >= old(rdPos(r))
+//@   ensures typeIs(r, "*BufferReader") && result1 == nil ==> rdPos(r) > old(rdPos(r))
+
+//@ func ReadName
+//@   dyn r in {*BufferReader, *WireReader}
+//@   requires rdWf(r)
+//@   modifies r.(*BufferReader).pos, r.(*WireReader).pos, r.(*WireReader).seg
+//@   ensures rdWf(r) && rdLen(r) == old(rdLen(r))
+//@   ensures typeIs(r, "*BufferReader") && result1 == nil ==> rdPos(r) == rdLen(r)
+//@   loop 1 invariant rdWf(r) && rdLen(r) == old(rdLen(r))
+//@   loop 1 invariant typeIs(r, "*BufferReader") ==> rdPos(r) >= old(rdPos(r)) && (err == io.EOF ==> rdPos(r) == rdLen(r))
+
+//@ func ComponentFromBytes
+//@   ensures result1 == nil ==> specCompDecodedAt(buf, 0, result0)
+
+//@ func NameFromBytes
+
+// Round trip through a reader: a component encoded at buf[o] (canonical form) is read back unchanged.
+//
+//@ func lemmaReadComponentRoundTrip
+//@   requires wfBR(r) && r.pos+specCompLen(c) <= len(r.buf) && specCompAt(r.buf, r.pos, c)
+//@   modifies r.pos
+//@   ensures result1 == nil && result0.Typ == c.Typ && len(result0.Val) == len(c.Val)
+//@   ensures bytesAt(result0.Val, 0, c.Val)
+//@   ensures r.pos == old(r.pos)+specCompLen(c)
+func lemmaReadComponentRoundTrip(r *BufferReader, c Component) (Component, error) {
+	return ReadComponent(r)
+}
+
+// ---------------------------------------------------------------------------------------
+// Interface-level contracts of ParseReader (used at every call through the interface; both
+// implementations are checked to refine them: obligations "<method>~(ParseReader).<m>#refines:n").
+// ---------------------------------------------------------------------------------------
+
+//@ func (ParseReader).ReadByte
+//@   requires rdWf(self)
+//@   modifies self.(*BufferReader).pos, self.(*WireReader).pos, self.(*WireReader).seg
+//@   ensures rdWf(self) && rdLen(self) == old(rdLen(self))
+//@   ensures result1 != nil ==> result1 == io.EOF
+
+//@ func (ParseReader).Read
+//@   requires rdWf(self)
+//@   modifies self.(*BufferReader).pos, self.(*WireReader).pos, self.(*WireReader).seg, p[*]
+//@   ensures rdWf(self) && rdLen(self) == old(rdLen(self)) && 0 <= result0 && result0 <= len(p)
+
+//@ func (ParseReader).UnreadByte
+//@   requires rdWf(self)
+//@   modifies self.(*BufferReader).pos, self.(*WireReader).pos, self.(*WireReader).seg
+//@   ensures rdWf(self) && rdLen(self) == old(rdLen(self))
+
+//@ func (ParseReader).ReadWire
+//@   requires rdWf(self)
+//@   modifies self.(*BufferReader).pos, self.(*WireReader).pos, self.(*WireReader).seg
+//@   ensures rdWf(self) && rdLen(self) == old(rdLen(self))
+
+//@ func (ParseReader).ReadBuf
+//@   requires rdWf(self)
+//@   modifies self.(*BufferReader).pos, self.(*WireReader).pos, self.(*WireReader).seg
+//@   ensures rdWf(self) && rdLen(self) == old(rdLen(self))
+//@   ensures result1 == nil ==> len(result0) == l
+
+//@ func (ParseReader).Range
+//@   requires rdWf(self)
+
+//@ func (ParseReader).Skip
+//@   requires rdWf(self)
+//@   modifies self.(*BufferReader).pos, self.(*WireReader).pos, self.(*WireReader).seg
+//@   ensures rdWf(self) && rdLen(self) == old(rdLen(self))
+
+//@ func (ParseReader).Pos
+//@   requires rdWf(self)
+//@   ensures result == rdPos(self)
+
+//@ func (ParseReader).Length
+//@   requires rdWf(self)
+//@   ensures result == rdLen(self)
+
+//@ func (ParseReader).Delegate
+//@   requires rdWf(self)
+//@   modifies self.(*BufferReader).pos, self.(*WireReader).pos, self.(*WireReader).seg
+//@   ensures rdWf(self) && rdLen(self) == old(rdLen(self)) && rdWf(result) && result != nil
